@@ -65,6 +65,9 @@ let run_case toks obs =
             | Some (i, op, m, im, false) ->
                 Printf.sprintf "MISMATCH %s op#%d (%s): model views %s, implementation %s" id i op m im
             | None -> Printf.sprintf "AGREE %s %s" id (if List.length ops >= 3 then "nontrivial" else "trivial")))
+  | "scn" :: _ when List.exists (fun t -> String.length t >= 10 && String.sub t 0 10 = "expectinv=") toks ->
+      (* the serving side: what each handler saw, judged as in C01 *)
+      C01.run_c01 toks obs
   | "scn" :: _ ->
       (* tags on the frames the client writes: expectation computed by Model.traveling_tags *)
       C13.with_trace toks obs (fun id k evs tr ->
